@@ -41,6 +41,7 @@ class RestrictionPropagator(MultiFunction):
         self,
         side: Literal["+", "-"] | None = None,
         default_restrictions: dict[Mesh, Literal["+", "-"] | None] | None = None,
+        apply_default: bool = True,
     ):
         """Initialise a restriction propagator.
 
@@ -48,17 +49,21 @@ class RestrictionPropagator(MultiFunction):
             side: The side of the mesh to restrict to, if `None`, no restriction.
             default_restrictions: A map between meshes and certain restrictions
                 set by the integration measure.
+            apply_default: If ``False``, ``default_restrictions`` is only used to
+                check that discontinuous quantities are restricted; continuous
+                quantities are left unrestricted.
         """
         MultiFunction.__init__(self)
         self.current_restriction: Literal["+", "-"] | None = side
         self.default_restrictions = default_restrictions
+        self.apply_default = apply_default
         # Caches for propagating the restriction with map_expr_dag
         self.vcaches: dict[Literal["+", "-"], dict] = {"+": {}, "-": {}}
         self.rcaches: dict[Literal["+", "-"], dict] = {"+": {}, "-": {}}
         if self.current_restriction is None:
             self._rp = {
-                "+": RestrictionPropagator("+", default_restrictions),
-                "-": RestrictionPropagator("-", default_restrictions),
+                "+": RestrictionPropagator("+", default_restrictions, apply_default),
+                "-": RestrictionPropagator("-", default_restrictions, apply_default),
             }
 
     def restricted(self, o):
@@ -133,7 +138,7 @@ class RestrictionPropagator(MultiFunction):
             domain = self._extract_and_check_domain(o)
             r = self.default_restrictions[domain]
             if self.current_restriction is None:
-                if r is None:
+                if r is None or not self.apply_default:
                     return o
                 elif r in ["+", "-"]:
                     return o(r)
@@ -293,7 +298,9 @@ class RestrictionPropagator(MultiFunction):
 
 
 def apply_restrictions(
-    expression: Expr | Integral, default_restrictions: dict | None = None
+    expression: Expr | Integral,
+    default_restrictions: dict | None = None,
+    apply_default: bool = True,
 ) -> Expr:
     """Propagate restriction nodes to wrap differential terminals directly.
 
@@ -304,10 +311,16 @@ def apply_restrictions(
             domain-default_restriction map.
             If ``None``, just propagate restrictions without
             applying the default restrictions.
+        apply_default:
+            If ``False``, the map is only used to check that every
+            discontinuous quantity is restricted; continuous quantities
+            without a restriction are left as they are.
 
     Returns:
         expression with the restriction nodes propagated.
 
     """
-    rules = RestrictionPropagator(default_restrictions=default_restrictions)
+    rules = RestrictionPropagator(
+        default_restrictions=default_restrictions, apply_default=apply_default
+    )
     return map_integrand_dags(rules, expression)
